@@ -640,8 +640,8 @@ func rule158(r *core.Run) {
 				return
 			}
 			if args := c.Common().Args; len(args) > 0 {
-				if constName(args[0]) {
-					return // a scratch file of a fixed name the constructor made itself (modtime probe)
+				if constName(args[0]) || createdExclusivelyHere(r, ff, args[0]) {
+					return // a scratch file the function made itself (modtime probe)
 				}
 			}
 			n++
@@ -735,4 +735,33 @@ func constName(v ssa.Value) bool {
 		}
 	}
 	return n > 0
+}
+
+// createdExclusivelyHere: the path value names a file that this very function
+// created with O_CREATE|O_EXCL (so it existed for no one else).
+func createdExclusivelyHere(r *core.Run, fn *ssa.Function, path ssa.Value) bool {
+	const oCREATE, oEXCL = 0x40, 0x80
+	varOf := func(v ssa.Value) ssa.Value {
+		if u, ok := v.(*ssa.UnOp); ok && u.Op == token.MUL {
+			return u.X
+		}
+		return v
+	}
+	want := varOf(path)
+	found := false
+	core.Instrs(fn, func(in ssa.Instruction) {
+		c, ok := in.(ssa.CallInstruction)
+		if !ok || r.P.CalleeName(c) != "invoke:github.com/spf13/afero.Fs.OpenFile" {
+			return
+		}
+		args := c.Common().Args
+		fl, ok := core.ConstInt(args[1])
+		if !ok || fl&oEXCL == 0 || fl&oCREATE == 0 {
+			return
+		}
+		if varOf(args[0]) == want {
+			found = true
+		}
+	})
+	return found
 }
